@@ -236,6 +236,17 @@ pub fn generate(seed: u64, tier: &str, _property: &str) -> ThreadScenario {
     // admin operations: valid replacement, invalid batch (must leave nothing behind), reconfig
     let mut admin = Vec::new();
     for _ in 0..rng.below(3) {
+        let prefixed: Vec<String> = g.world.info.iter().map(|t| t.name.clone()).filter(|nm| g.cfg.prefixes.iter().any(|p| nm.starts_with(p.as_str()))).collect();
+        if !prefixed.is_empty() && rng.chance(1, 3) {
+            // a template that takes over a short name: the exact-name twin of a prefixed
+            // template, or the same base name under another prefix (resolution must flip for
+            // renders that start after publication, and only for those)
+            let full = rng.pick(&prefixed);
+            let (pi, short) = g.cfg.prefixes.iter().enumerate().find_map(|(i, p)| full.strip_prefix(p.as_str()).map(|s| (i, s.to_string()))).unwrap();
+            let name = if g.cfg.prefixes.len() > 1 && rng.chance(1, 2) { format!("{}{}", g.cfg.prefixes[(pi + 1) % g.cfg.prefixes.len()], short) } else { short };
+            admin.push(AdminOp::AddBatch { items: vec![(name, format!("TWIN{}", rng.below(9)))] });
+            continue;
+        }
         match rng.below(4) {
             0 | 1 => {
                 let i = rng.below(n);
